@@ -359,4 +359,15 @@ theorem setPg_self (pages : Nat → Page) (g : Nat) : setPg pages g (pages g) = 
   · rename_i h; rw [h]
   · rfl
 
+/-- a closed slice that lies within the bounds is converted to exactly the shifted range -/
+theorem clipAxis_range_exact (len a0 a1 bmin bmax off s e : Int)
+    (h0 : 0 ≤ a0) (h2 : a1 < len) (hmin : bmin + off = a0) (hmax : bmax + off = a1)
+    (hs : bmin ≤ s) (he : e ≤ bmax + 1) (hse : s ≤ e) :
+    (View.clipAxis (.slice (some s) (some e)) bmin bmax off).range len = (s + off, e + off) := by
+  simp only [View.clipAxis, View.asSlice, Option.getD_some, Ix.range, pySlice]
+  rw [pyNorm_of_range len (max s bmin + off) (by omega) (by omega),
+      pyNorm_of_range len (min e (bmax + 1) + off) (by omega) (by omega)]
+  simp only [Prod.mk.injEq]
+  omega
+
 end PcbV.ViewportLemmas
